@@ -99,7 +99,7 @@ func (ex *Exec) contractHasPropClauses(c *Contract) bool {
 		return tagOwned(c.Tags, ex.prop)
 	}
 	for _, cl := range c.Clauses {
-		if cl.Kind != "requires" && tagOwned(cl.Tags, ex.prop) && !cl.Assumed {
+		if cl.Kind != "requires" && cl.Kind != "params" && cl.Kind != "local" && tagOwned(cl.Tags, ex.prop) && !cl.Assumed {
 			return true
 		}
 	}
@@ -174,6 +174,20 @@ func (ex *Exec) localEnv(fr *Frame, st *State) *CEnv {
 			}
 		}
 	}
+	{
+		var cur []string
+		for _, p := range fr.fn.Params {
+			cur = append(cur, p.Name())
+		}
+		for old, i := range ex.lib.Contracts[funcKey(fr.fn)].paramAliases(cur) {
+			if v, ok := env.vars[cur[i]]; ok {
+				if _, clash := env.vars[old]; !clash {
+					env.vars[old] = v
+					env.vars[old+"0"] = TV{fr.args[i], fr.fn.Params[i].Type()}
+				}
+			}
+		}
+	}
 	for i, fv := range fr.fn.FreeVars {
 		_ = i
 		if p, ok := fr.env[fv].(*Ptr); ok {
@@ -227,6 +241,15 @@ func (ex *Exec) verifyFunc(fn *ssa.Function, caseParam string, caseLit Expr) *Fu
 	}
 	if fn.Signature.Recv() != nil && len(args) > 0 {
 		env.vars["this"] = TV{args[0], fn.Params[0].Type()}
+	}
+	{
+		var cur []string
+		for _, p := range fn.Params {
+			cur = append(cur, p.Name())
+		}
+		for old, i := range c.paramAliases(cur) {
+			env.vars[old] = TV{args[i], fn.Params[i].Type()}
+		}
 	}
 	// a closure under contract: its captured variables hold arbitrary values of their types on entry
 	freeCells := map[*ssa.FreeVar]*Ptr{}
